@@ -920,3 +920,59 @@ Proof.
     rewrite HP in K. destruct K as [_ K]. specialize (K (eq_sym Hup)). simpl in K. exact K.
   - destruct (D1 eq_refl) as (_ & A2 & _). rewrite A2. rewrite (D2 (eq_sym Hup)). split; [discriminate | intro H; exfalso; apply H; reflexivity].
 Qed.
+
+(* ================================================================ notices of a removed publisher *)
+Local Transparent node_step err_replies.
+
+Lemma send_to_u_nil n x m : send_to_u [] n x m = send_to n x m.
+Proof. unfold send_to_u, send_to. simpl. rewrite andb_true_r. reflexivity. Qed.
+
+Lemma object_removed_u_nil n o : object_removed_u [] n o = object_removed n o.
+Proof.
+  unfold object_removed_u, object_removed. f_equal.
+  apply flat_map_ext. intro e. apply flat_map_ext. intro x. apply send_to_u_nil.
+Qed.
+
+(* messages for destination x in a nested notice list *)
+Lemma msgs_to_flat {A} x (f : A -> list out) l : msgs_to x (flat_map f l) = flat_map (fun a => msgs_to x (f a)) l.
+Proof. unfold msgs_to. induction l as [|a l IH]; simpl; [reflexivity|]. rewrite flat_map_app. rewrite IH. reflexivity. Qed.
+
+Lemma flat_map_all_nil {A B} (f : A -> list B) l : (forall a, f a = []) -> flat_map f l = [].
+Proof. intro H. induction l as [|a l IH]; simpl; [reflexivity|]. rewrite H, IH. reflexivity. Qed.
+
+(* A failed send to one peer does not affect anything else: the tables end up the same whatever peers are
+   unreachable, nothing is sent to an unreachable peer, and every other peer gets exactly the notices it gets
+   when everybody is reachable (same notices, same order). *)
+Lemma notice_failure_isolated u n o :
+  fst (object_removed_u u n o) = fst (object_removed n o) /\
+  (forall x, smem str_eqb x u = true -> msgs_to x (snd (object_removed_u u n o)) = []) /\
+  (forall x, smem str_eqb x u = false -> msgs_to x (snd (object_removed_u u n o)) = msgs_to x (snd (object_removed n o))).
+Proof.
+  split; [reflexivity|].
+  assert (Hone : forall (n2 : node) x y m,
+            msgs_to x (send_to_u u n2 y m) = if smem str_eqb x u then [] else msgs_to x (send_to n2 y m)).
+  { intros n2 x y m. unfold send_to_u, send_to, msgs_to. destruct (can_send n2 y); simpl.
+    - destruct (smem str_eqb y u) eqn:Ey; simpl.
+      + destruct (smem str_eqb x u) eqn:Ex; [reflexivity|]. destruct (str_eqb x y) eqn:E; [|reflexivity].
+        apply str_eqb_spec in E. subst. congruence.
+      + destruct (str_eqb x y) eqn:E; [|destruct (smem str_eqb x u); reflexivity].
+        apply str_eqb_spec in E. subst. rewrite Ey. reflexivity.
+    - destruct (smem str_eqb x u); reflexivity. }
+  assert (Hall : forall x, msgs_to x (snd (object_removed_u u n o)) =
+                           if smem str_eqb x u then [] else msgs_to x (snd (object_removed n o))).
+  { intro x. unfold object_removed_u, object_removed. cbv zeta. simpl snd. rewrite !msgs_to_flat.
+    destruct (smem str_eqb x u) eqn:Ex.
+    - apply flat_map_all_nil. intro e. rewrite msgs_to_flat. apply flat_map_all_nil. intro y. rewrite Hone, Ex. reflexivity.
+    - apply flat_map_ext. intro e. rewrite !msgs_to_flat. apply flat_map_ext. intro y. rewrite Hone, Ex. reflexivity. }
+  split; intros x Hx; rewrite Hall, Hx; reflexivity.
+Qed.
+
+(* ... and a reachable remote subscriber of a signal of the removed object does get its notice *)
+Lemma notice_sent_when_reachable u n o x s :
+  nodot o = true -> Rk n x o s = true -> can_send n x = true -> smem str_eqb x u = false ->
+  In (MRemoved o s) (msgs_to x (snd (object_removed_u u (w_objs (sdel str_eqb o (n_objs n)) n) o))).
+Proof.
+  intros Ho HR Hc Hu.
+  destruct (notice_failure_isolated u (w_objs (sdel str_eqb o (n_objs n)) n) o) as (_ & _ & H3). rewrite (H3 x Hu).
+  apply in_msgs_to. apply object_removed_sends; assumption.
+Qed.
